@@ -43,7 +43,7 @@ func FuzzC05(f *testing.F) {
 	f.Fuzz(func(t *testing.T, hd, a, b, c string, shape uint8) {
 		cs := MkFuzzCase(hd, a, b, c, shape)
 		if v := prop.Eval(cs); v != nil {
-			t.Fatalf("VIOLATION %s: %s", ID, v.Msg)
+			t.Fatalf("VIOLATION %s: %s", ID, firstLine(v.Msg))
 		}
 	})
 }
@@ -66,4 +66,13 @@ func MkFuzzCase(hd, a, b, c string, shape uint8) Case {
 		ops = append(ops, gen.Op{K: "appendnew"}, gen.Op{K: "rowadd", Ref: len(ops), Items: []gen.Item{gen.S(hd)}})
 	}
 	return Case{Script: gen.Script{Ops: ops}}
+}
+
+func firstLine(s string) string {
+	for i := 0; i < len(s); i++ {
+		if s[i] == '\n' {
+			return s[:i]
+		}
+	}
+	return s
 }
